@@ -53,6 +53,9 @@ def requests():
         ("header-colon-space", req("GET", "/file.txt", [("X-A", "b: c: d"), ("Origin", "https://a.example")])),
         ("many-header-lines", b"GET /file.txt HTTP/1.1\r\n" + b"a: b\r\n" * 1500 + b"\r\n"),
         ("many-ranges", req("GET", "/four-mib.bin", [("Range", "bytes=" + ",".join(["0-0"] * 600))])),
+        ("many-undecodable-header-lines", b"GET /file.txt HTTP/1.1\r\n" + b"\xff\n" * 4900 + b"\r\n"),
+        ("content-length-1-tib", req("POST", "/form-url-encoded-enctype-post-method", host + [("Content-Type", "application/x-www-form-urlencoded"), ("Content-Length", "1099511627776")], b"a=b")),
+        ("content-length-isize-max", req("POST", "/form-url-encoded-enctype-post-method", host + [("Content-Type", "application/x-www-form-urlencoded"), ("Content-Length", "9223372036854775807")], b"a=b")),
         ("put", req("PUT", "/file.txt", host, b"DATA")),
         ("delete", req("DELETE", "/file.txt", host)),
     ]
@@ -74,8 +77,8 @@ def canon(name, raw):
     return m
 
 
-def talk(port, raw, timeout=10):
-    s = socket.create_connection(("127.0.0.1", port), timeout=timeout)
+def talk(port, raw, timeout=10, host="127.0.0.1"):
+    s = socket.create_connection((host, port), timeout=timeout)
     s.settimeout(timeout)
     s.sendall(raw)
     out = b""
@@ -91,16 +94,35 @@ def talk(port, raw, timeout=10):
     return out
 
 
+def ipv6_loopback():
+    try:
+        s = socket.socket(socket.AF_INET6)
+        s.bind(("::1", 0))
+        s.close()
+        return True
+    except OSError:
+        return False
+
+
 def run(drv):
     """-> (summary dict, violations [(signature, detail, case)], errors [str]); anything but a clean
-    result is taken a second time before it is believed (a loaded machine may be slow)."""
-    first = run_once(drv)
-    if not first[1] and not first[2]:
-        return first
-    return run_once(drv)
+    result is taken a second time before it is believed (a loaded machine may be slow). The series is
+    run against a listener on 127.0.0.1 and, where the machine has one, on the IPv6 loopback ::1
+    (the peer address takes part in request handling: it is parsed again for the log line)."""
+    binds = ["127.0.0.1"] + (["::1"] if ipv6_loopback() else [])
+    summary, violations, errors = {"binds": binds}, [], []
+    for b in binds:
+        r = run_once(drv, b)
+        if r[1] or r[2]:
+            r = run_once(drv, b)
+        for k, v in r[0].items():
+            summary[k] = summary.get(k, 0) + v
+        violations += r[1]
+        errors += r[2]
+    return summary, violations, errors
 
 
-def run_once(drv):
+def run_once(drv, bind="127.0.0.1"):
     binary = drv.build_rws_binary()
     rwsv = drv.RWSV
     d = tempfile.mkdtemp(prefix="rwsv-conf-")
@@ -120,41 +142,42 @@ def run_once(drv):
             return {}, [], [f"in-process serve step failed with {p.returncode}"]
         inproc = [bytes.fromhex(x) if x != "PANIC" else b"PANIC" for x in json.load(open(os.path.join(d, "inproc.json")))]
         # the real binary
-        s = socket.socket()
-        s.bind(("127.0.0.1", 0))
+        s = socket.socket(socket.AF_INET6 if ":" in bind else socket.AF_INET)
+        s.bind((bind, 0))
         port = s.getsockname()[1]
         s.close()
+        tag = "" if bind == "127.0.0.1" else f":bind={bind}"
         logf = open(os.path.join(d, "stdout.log"), "wb")
-        proc = subprocess.Popen([binary, f"--port={port}", "--thread-count=3"], cwd=root, env=env, stdout=logf, stderr=subprocess.DEVNULL)
+        proc = subprocess.Popen([binary, f"--port={port}", f"--ip={bind}", "--thread-count=3"], cwd=root, env=env, stdout=logf, stderr=subprocess.DEVNULL)
         deadline = time.time() + 15
         while time.time() < deadline:
             try:
-                socket.create_connection(("127.0.0.1", port), timeout=0.2).close()
+                socket.create_connection((bind, port), timeout=0.2).close()
                 break
             except OSError:
                 time.sleep(0.05)
         same = 0
         for (name, raw), want in zip(reqs, inproc):
             try:
-                got = talk(port, raw)
+                got = talk(port, raw, host=bind)
             except OSError as e:
                 got = b""
                 errors.append(f"{name}: {e}")
             if proc.poll() is not None:
-                violations.append(("C04:real-binary:server-process-ended", f"the server exited with {proc.returncode} while answering {name}", {"engine": "binary", "request": name}))
+                violations.append((f"C04:real-binary:server-process-ended{tag}", f"the server exited with {proc.returncode} while answering {name}", {"engine": "binary", "request": name, "bind": bind}))
                 break
             if not got:
-                violations.append((f"C04:real-binary:no-answer:{name}", "the real binary closed the connection without answering", {"engine": "binary", "request": name}))
+                violations.append((f"C04:real-binary:no-answer:{name}{tag}", "the real binary closed the connection without answering", {"engine": "binary", "request": name, "bind": bind}))
                 continue
             if canon(name, got) == canon(name, want):
                 same += 1
             else:
-                errors.append(f"harness and binary disagree on {name}: binary {got[:80]!r} harness {want[:80]!r}")
+                errors.append(f"harness and binary ({bind}) disagree on {name}: binary {got[:80]!r} harness {want[:80]!r}")
         # afterwards the server must still answer (capacity: 3 workers, 36 requests incl. every former crasher)
         if proc.poll() is None:
-            probe = talk(port, reqs[0][1])
+            probe = talk(port, reqs[0][1], host=bind)
             if not probe.startswith(b"HTTP/1.1 200"):
-                violations.append(("C04:real-binary:not-serving-after-the-request-series", f"probe answer {probe[:60]!r}", {"engine": "binary", "request": "probe"}))
+                violations.append((f"C04:real-binary:not-serving-after-the-request-series{tag}", f"probe answer {probe[:60]!r}", {"engine": "binary", "request": "probe", "bind": bind}))
         return {"requests": len(reqs), "identical_answers": same}, violations, errors
     finally:
         if proc is not None and proc.poll() is None:
